@@ -213,8 +213,6 @@ fn join_fields(f: &Fields) -> String {
 /// one of the recorded findings; the property is `Ref::default()`.
 #[derive(Clone, Copy, Default, PartialEq, Eq)]
 struct Ref {
-    /// D1: cut at every colon, value = second piece
-    every_colon: bool,
     /// D10: bookmarks through plain i32 parsing (no trim, full i32 range)
     raw_bookmarks: bool,
     /// D14: f32 limit is 2^31 instead of 2^31-1
@@ -234,12 +232,7 @@ fn strip_comment(s: &str) -> &str {
 }
 
 /// key and value of a record: trimmed text before / after the FIRST colon
-fn key_value(s: &str, r: Ref) -> (String, Option<String>) {
-    if r.every_colon {
-        let mut it = s.split(':');
-        let k = it.next().unwrap_or("").trim().to_string();
-        return (k, it.next().map(|v| v.trim().to_string()));
-    }
+fn key_value(s: &str, _r: Ref) -> (String, Option<String>) {
     match s.find(':') {
         Some(i) => (s[..i].trim().to_string(), Some(s[i + 1..].trim().to_string())),
         None => (s.trim().to_string(), None),
@@ -832,7 +825,6 @@ fn differing(a: &Fields, want: &Fields) -> Vec<String> {
 // ---------------------------------------------------------------------------
 
 struct Known {
-    d1: u32,
     d10: u32,
     d14: u32,
 }
@@ -884,15 +876,16 @@ fn run_case(sec: Sec, lines: &[String], tag: &str, out: &mut Out, known: &mut Kn
     // classify against the recorded findings: the deviation must be exactly
     // the one the finding describes
     let variants = [
-        ("D1", Ref { every_colon: true, ..Ref::default() }),
         ("D10", Ref { raw_bookmarks: true, ..Ref::default() }),
         ("D14", Ref { f32_limit_pow31: true, ..Ref::default() }),
     ];
     let mut class = "";
     let mut also = String::new();
-    // single findings first, then combinations (a sequence may contain several)
-    'search: for mask in [1u8, 2, 4, 3, 5, 6, 7] {
-        let v = Ref { every_colon: mask & 1 != 0, raw_bookmarks: mask & 2 != 0, f32_limit_pow31: mask & 4 != 0 };
+    // single findings first, then both together (a sequence may contain several).
+    // A deviation in where a record is cut (first colon) has no class: it is a
+    // violation.
+    'search: for mask in [1u8, 2, 3] {
+        let v = Ref { raw_bookmarks: mask & 1 != 0, f32_limit_pow31: mask & 2 != 0 };
         if let Some(w) = reference(sec, lines, v) {
             if differing(&got, &w).is_empty() {
                 let ids: Vec<&str> = variants.iter().enumerate().filter(|(k, _)| mask & (1 << k) != 0).map(|(_, x)| x.0).collect();
@@ -905,7 +898,6 @@ fn run_case(sec: Sec, lines: &[String], tag: &str, out: &mut Out, known: &mut Kn
         }
     }
     let slot = match class {
-        "D1" => Some(&mut known.d1),
         "D10" => Some(&mut known.d10),
         "D14" => Some(&mut known.d14),
         _ => None,
@@ -1416,11 +1408,16 @@ pub const RULE: &str = "sequences of section lines run through the public parse_
 pub fn generate(tier: &str, seed: u64, out: &mut Out) {
     let thorough = tier == "thorough";
     let mut r = Rng::new(seed ^ 0xC11);
-    let mut known = Known { d1: 0, d10: 0, d14: 0 };
+    let mut known = Known { d10: 0, d14: 0 };
     let s = |x: &str| x.to_string();
 
     // corpus: recorded findings and readings first
     run_case(Sec::Metadata, &[s("Title:Re:Zero")], "corpus", out, &mut known);
+    run_case(Sec::General, &[s("AudioFilename: C:\\a.mp3")], "corpus", out, &mut known);
+    run_case(Sec::Metadata, &[s("Tags:a:b:c"), s("Source: http://x.y/z // kept"), s("Version::"), s("Creator: a : b ")], "corpus", out, &mut known);
+    run_case(Sec::Colors, &[s("Combo1:1,2,3:4"), s("Combo2: 1,2,3"), s("SliderBorder:4,5,6:")], "corpus", out, &mut known);
+    run_case(Sec::Difficulty, &[s("CircleSize:4"), s("CircleSize:4:5"), s("SliderMultiplier::2")], "corpus", out, &mut known);
+    run_case(Sec::Editor, &[s("GridSize:4:5"), s("Bookmarks:1,2:3,4"), s("BeatDivisor: 8 : ")], "corpus", out, &mut known);
     run_case(Sec::Editor, &[s("Bookmarks: -2147483648")], "corpus", out, &mut known);
     run_case(Sec::Editor, &[s("Bookmarks: 1, 5,7 ,9")], "corpus", out, &mut known);
     run_case(Sec::General, &[s("StackLeniency: 2147483648")], "corpus", out, &mut known);
@@ -1552,7 +1549,6 @@ pub fn generate(tier: &str, seed: u64, out: &mut Out) {
         }
         run_case(sec, &lines, "random", out, &mut known);
     }
-    out.count_n("oracle.known.D1.total", known.d1 as u64);
     out.count_n("oracle.known.D10.total", known.d10 as u64);
     out.count_n("oracle.known.D14.total", known.d14 as u64);
 }
